@@ -43,6 +43,8 @@ type Obl struct {
 	Prefix  int
 	NDecl   int
 	Goal    string
+	OnlyProps []string // clause tagged [Cxx,...]: checked only under these properties (assumed under the others)
+	SkDecls []string // set on split parts: the goal is already skolemised, these are its constants
 	Desc    string
 	vc      *VC
 	Result  string // unsat / sat / unknown / timeout / error
@@ -206,7 +208,10 @@ func (o *Obl) scriptWith(produceModel, allDecls bool, trailer string) string {
 	if o.Cover {
 		b.WriteString("(assert " + o.Goal + ")\n")
 	} else {
-		decls, goal := skolemizeGoal(o.Goal)
+		decls, goal := o.SkDecls, o.Goal
+		if decls == nil {
+			decls, goal = skolemizeGoal(o.Goal)
+		}
 		for _, d := range decls {
 			b.WriteString(d + "\n")
 		}
